@@ -7,6 +7,7 @@ import (
 	"strings"
 	"time"
 
+	"verifharness/clifam"
 	"verifharness/execfam"
 	"verifharness/fpfam"
 	"verifharness/loadfam"
@@ -26,6 +27,12 @@ func main() {
 		os.Exit(execfam.ReplayExec(os.Args[3]))
 	}
 	switch os.Args[1] {
+	case "C19":
+		tier := "quick"
+		if len(os.Args) > 2 {
+			tier = os.Args[2]
+		}
+		os.Exit(clifam.Check(tier))
 	case "C15":
 		tier := "quick"
 		if len(os.Args) > 2 {
